@@ -107,7 +107,7 @@ def r_set_pkg(s, r):
     funcs = [p for p in s["providers"] if not p["struct"]]
     structs = [p for p in s["providers"] if p["struct"]]
     provs = coq_list(["mkProv %d %d %s %s %s %s %s %s %s %s" % (
-        p["id"], p.get("pkg", 0), coq_str("P%d" % p["id"]),
+        p["id"], p.get("pkg", 0), coq_str(("p%d" if p.get("unexp") else "P%d") % p["id"]),
         synth.r_nats(p["args"]), "[]", coq_bool(p["varargs"]), "false", synth.r_nats(p["outs"]), coq_bool(p["cleanup"]), coq_bool(p["err"]))
         for p in funcs])
     sps = []
@@ -165,7 +165,7 @@ def case_term(i, p, r, o):
             ds = [("DUnparsed", 0)]
         if any(d[0] in ("DNoProvider",) or d[0].startswith("DUnused") for d in ds):
             stage = "StSolve"
-        if any(d[0] in ("DNeedsCleanup", "DNeedsErr", "DValueAccess") for d in ds):
+        if any(d[0] in ("DNeedsCleanup", "DNeedsErr", "DValueAccess", "DProvAccess") for d in ds):
             stage = "StInject"
         obs = "(GOErr %s %s)" % (stage, coq_list([synth.r_diag(d) for d in ds]))
         kind = (stage, ds)
